@@ -26,6 +26,7 @@ use std::sync::atomic::{AtomicUsize, Ordering::Relaxed};
 static N_ABA: AtomicUsize = AtomicUsize::new(0);          // A-B-A re-runs
 static N_TWICE: AtomicUsize = AtomicUsize::new(0);        // arrays rendered a second time / rebuilt and rendered
 static N_HUGE: AtomicUsize = AtomicUsize::new(0);         // text forms of more than 8192 elements compared with the model
+static N_F32: AtomicUsize = AtomicUsize::new(0);          // f32 literal items compared bit-wise with `"<token>".parse::<f32>()`
 
 mod c18_gen;
 use c18_gen::{CTORS, LITS};
@@ -48,6 +49,18 @@ fn finish_obs<T: ArrayElement>(r: std::thread::Result<Result<Array<T>, ArrayErro
 /// run one literal / constructor under `catch_unwind`; elements are reported by their Debug text
 pub fn obs<T: ArrayElement, F: FnOnce() -> Result<Array<T>, ArrayError>>(f: F) -> Obs {
     finish_obs(std::panic::catch_unwind(std::panic::AssertUnwindSafe(f)))
+}
+
+/// literals with impure items (`it.next().unwrap()`, `{ n += 1; n }`, `st.pop().unwrap()`, a counting closure): the literal's observation,
+/// unless the state the items work on is afterwards not what ONE evaluation of every item leaves behind
+pub fn once(o: Obs, ok: bool, what: &str) -> Obs {
+    if ok { o } else { Obs::Err(format!("ITEMS-NOT-EVALUATED-EXACTLY-ONCE: after the literal `{what}` is false (the literal itself gave `{}`)", truncate(&show_obs(&o), 200))) }
+}
+
+/// a numeric source token without its type suffix
+fn strip_suffix(tok: &str) -> &str {
+    for s in ["f32", "f64", "i128", "u128", "i64", "u64", "i32"] { if let Some(b) = tok.strip_suffix(s) { return b; } }
+    tok
 }
 
 /// what `text.parse::<T>()` yields, by its Debug text (`None` = the `unwrap()` in the macro panics)
@@ -643,6 +656,21 @@ fn exec_single(op: &str, args: &[&str], expected: &str) -> Option<Verdict> {
             let (model, dbg_flag) = match expected.rsplit_once(' ') { Some((m, f)) if f.starts_with("dbg=") => (m, f), _ => (expected, "dbg=?") };
             let exp = finish_expected(model, l.canon)?;
             let shown = show_obs(&observed);
+            // f32 literals: every element bit-equal to the source token read as f32 directly (one rounding from the decimal text)
+            if l.ty == "f32" && !l.toks.is_empty() {
+                if let Obs::Ok(_, elems) = &observed {
+                    if elems.len() != l.toks.len() { return Some(Verdict::Mismatch { observed: shown, detail: format!("`{}`: {} items written", l.src, l.toks.len()) }); }
+                    for (k, tok) in l.toks.iter().enumerate() {
+                        let want: f32 = strip_suffix(tok).parse().ok()?;
+                        let got: f32 = elems[k].parse().ok()?;              // the Debug text of an f32 reads back as the same bits
+                        if want.to_bits() != got.to_bits() {
+                            return Some(Verdict::Mismatch { observed: format!("element {k} = {:?} (bits {:#010x}) in {}", got, got.to_bits(), truncate(&shown, 300)),
+                                detail: format!("`{}` ({}): item {k} is the token `{tok}`; \"{}\".parse::<f32>() = {:?} (bits {:#010x})", l.src, l.note, strip_suffix(tok), want, want.to_bits()) });
+                        }
+                    }
+                    N_F32.fetch_add(elems.len(), Relaxed);
+                }
+            }
             if dbg_flag != "dbg=1" {
                 return Some(Verdict::Mismatch { observed: shown, detail: format!("model `nest` does not reproduce the Debug text of `{}`: real `{}`", l.src, dec(args[4]).unwrap_or_default()) });
             }
@@ -827,7 +855,7 @@ fn signature(v: &Verdict) -> Option<String> { match v { Verdict::Match(o) => Som
 
 fn exec(op: &str, args: &[&str], expected: &str) -> Option<Verdict> {
     if op == "tally" {
-        return Some(Verdict::Match(format!("ok tally: {} A-B-A re-runs; {} arrays rendered twice + rebuilt; {} text forms of more than 8192 elements compared with the model", N_ABA.load(Relaxed), N_TWICE.load(Relaxed), N_HUGE.load(Relaxed))));
+        return Some(Verdict::Match(format!("ok tally: {} A-B-A re-runs; {} arrays rendered twice + rebuilt; {} text forms > 8192 elements vs model; {} f32 items bit-equal to tok.parse::<f32>()", N_ABA.load(Relaxed), N_TWICE.load(Relaxed), N_HUGE.load(Relaxed), N_F32.load(Relaxed))));
     }
     if op == "seq" { return exec_seq(args, expected); }
     let mut verdict = exec_single(op, args, expected)?;
